@@ -69,6 +69,15 @@ func main() {
 			ids = append(ids, id)
 		}
 		sort.Strings(ids)
+		if len(os.Args) > 2 && os.Args[2] == "-json" {
+			m := map[string]string{}
+			for _, id := range ids {
+				m[id] = rules[id].Meta.Explanation
+			}
+			bz, _ := json.MarshalIndent(m, "", " ")
+			fmt.Println(string(bz))
+			return
+		}
 		fmt.Println(strings.Join(ids, " "))
 	default:
 		fmt.Fprintln(os.Stderr, "unknown command", os.Args[1])
